@@ -19,6 +19,7 @@ package main
 //   runStartsOnEmptyStack runCodeInternal, under `if !resetState`, pops the operand stack empty (`for vm.sp >= 0 { vm.pop() }`)
 //                         before the entrypoint is activated
 //   reloadCopiesGlobals   reloadCode copies the old globals into the freshly loaded main code
+//   reloadDropsMainFunctions  reloadCode forgets every loaded code object of the main code (its functions are wrapped again)
 //   compileOnlyRestores   per compile-only field of compiler.go (Code.pipeActive, Code.loops, Code.symbols,
 //                         loop.pendingSwitchValues, Compiler.current): does EVERY compile function that sets it
 //                         reset it in a deferred function (so a compile error cannot leave it set)?
@@ -140,6 +141,35 @@ func c18_genC18(repo string) string {
 		}
 		return true
 	})
+	// reloadCode forgets, with the main code, every loaded code object of the main code: a loop over
+	// vm.loadedCode that deletes the entry of the loop variable under `if <key>.Root() == <main>`, placed
+	// before the call of vm.loadCode that wraps the main code afresh
+	dropsFns := false
+	for _, st := range reload.Body.List {
+		if as, ok := st.(*ast.AssignStmt); ok && len(as.Rhs) == 1 && strings.HasPrefix(c18Expr(fset, as.Rhs[0]), "vm.loadCode(") {
+			break
+		}
+		rs, ok := st.(*ast.RangeStmt)
+		if !ok || c18Expr(fset, rs.X) != "vm.loadedCode" || rs.Key == nil || len(rs.Body.List) != 1 {
+			continue
+		}
+		key := c18Expr(fset, rs.Key)
+		is, ok := rs.Body.List[0].(*ast.IfStmt)
+		if !ok || is.Init != nil || is.Else != nil || len(is.Body.List) != 1 {
+			continue
+		}
+		cond := c18Expr(fset, is.Cond)
+		mainName := ""
+		if len(reload.Type.Params.List) == 1 && len(reload.Type.Params.List[0].Names) == 1 {
+			mainName = reload.Type.Params.List[0].Names[0].Name
+		}
+		if cond != key+".Root() == "+mainName && cond != mainName+" == "+key+".Root()" {
+			continue
+		}
+		if es, ok := is.Body.List[0].(*ast.ExprStmt); ok && c18Expr(fset, es.X) == "delete(vm.loadedCode, "+key+")" {
+			dropsFns = true
+		}
+	}
 	// --- vm.start clears the halt flag for every context
 	start := c18FindFunc(vmf, "VirtualMachine", "start")
 	clearsHalt := false
@@ -553,6 +583,7 @@ func c18_genC18(repo string) string {
 	s += "/-- `v.SetIP(code.InstructionCount())` in the error branch of `if err := v.Run(ctx)` -/\ndef replSetsIPAfterError : Bool := " + b(setsIP) + "\n\n"
 	s += "/-- the resetState argument (*VirtualMachine).Run passes to runCodeInternal -/\ndef runResetsState : Bool := " + reset + "\n\n"
 	s += "/-- reloadCode copies the old Globals slice into the newly loaded main code -/\ndef reloadCopiesGlobals : Bool := " + b(copies) + "\n\n"
+	s += "/-- reloadCode removes from vm.loadedCode every code object whose Root() is the main code, before it loads the main code again -/\ndef reloadDropsMainFunctions : Bool := " + b(dropsFns) + "\n\n"
 	s += "/-- (*Compiler).Compile takes c.main.mark() first and every error return follows c.main.rollback(mark) (error returns: " + strconv.Itoa(errReturns) + ") -/\ndef compileRollsBackOnError : Bool := " + b(rollsBack) + "\n\n"
 	s += "/-- every call of collectFunctionDeclarations in compileMain is at the top level of its body (or the Init of a top-level if) and before c.compile (calls: " + strconv.Itoa(firstCalls) + ") -/\ndef firstPassOnEveryInput : Bool := " + b(firstPassEvery) + "\n\n"
 	s += "/-- what (*Code).rollback assigns and calls -/\ndef rollbackRestores : List String := " + q(rollbackRestores) + "\n\n"
